@@ -16,6 +16,7 @@ modes
   nameflag  if <test>: ...  ->  _flagN = <test> ; if _flagN: ...   (named boolean)
   split     if a and b: X  ->  if a: if b: X
   inline1   x = E ; <next statement using x once>  ->  that statement with E
+  combo     rename, mirror, invert, demorgan, split, uncomp, guard, nameflag applied one after the other
 Writes nothing under /repo: each variant lives in a scratch worktree that is removed afterwards.
 """
 import ast, copy, glob, os, re, subprocess, sys, tempfile
@@ -270,17 +271,74 @@ class Inline1(ast.NodeTransformer):
         return node
 
 
+class _Renamer(ast.NodeTransformer):
+    def __init__(self, names):
+        self.names = names
+
+    def visit_Name(self, node):
+        if node.id in self.names:
+            node.id = node.id + '_rn'
+        return node
+
+    def visit_ExceptHandler(self, node):
+        if node.name in self.names:
+            node.name = node.name + '_rn'
+        return self.generic_visit(node)
+
+
+def _locals_of(fdef):
+    stores, banned = set(), set()
+    for node in ast.walk(fdef):
+        if isinstance(node, ast.Name) and isinstance(node.ctx, (ast.Store, ast.Del)):
+            stores.add(node.id)
+        elif isinstance(node, ast.ExceptHandler) and node.name:
+            stores.add(node.name)
+        elif isinstance(node, (ast.Global, ast.Nonlocal)):
+            banned.update(node.names)
+        elif isinstance(node, ast.arg):
+            banned.add(node.arg)
+        elif isinstance(node, (ast.FunctionDef, ast.AsyncFunctionDef, ast.ClassDef)) and node is not fdef:
+            banned.add(node.name)
+        elif isinstance(node, (ast.Import, ast.ImportFrom)):
+            for alias in node.names:
+                banned.add((alias.asname or alias.name).split('.')[0])
+    return set(n for n in stores - banned if not n.startswith('__'))
+
+
+class Rename(ast.NodeTransformer):
+    """every local of every top-level function / method gets the suffix _rn (as tools/rename_fuzz.py)"""
+    count = 0
+
+    def visit_Module(self, tree):
+        for node in ast.walk(tree):
+            body = getattr(node, 'body', None)
+            if not isinstance(node, (ast.Module, ast.ClassDef)) or not isinstance(body, list):
+                continue
+            for item in body:
+                if isinstance(item, (ast.FunctionDef, ast.AsyncFunctionDef)):
+                    names = _locals_of(item)
+                    if names:
+                        _Renamer(names).visit(item)
+                        Rename.count += len(names)
+        return tree
+
+
 MODES = {'mirror': Mirror, 'invert': Invert, 'nest': Nest, 'guard': Guard, 'demorgan': DeMorgan, 'uncomp': Uncomp,
-         'nameflag': NameFlag, 'split': Split, 'inline1': Inline1}
+         'nameflag': NameFlag, 'split': Split, 'inline1': Inline1, 'rename': Rename}
+COMBO = ['rename', 'mirror', 'invert', 'demorgan', 'split', 'uncomp', 'guard', 'nameflag']
 
 
 def transform(src):
     tree = ast.parse(src)
-    cls = MODES[mode]
-    cls.count = 0
-    tree = cls().visit(tree)
-    ast.fix_missing_locations(tree)
-    return ast.unparse(tree), cls.count
+    total = 0
+    for name in (COMBO if mode == 'combo' else [mode]):
+        cls = MODES[name]
+        cls.count = 0
+        tree = cls().visit(tree)
+        ast.fix_missing_locations(tree)
+        tree = ast.parse(ast.unparse(tree))     # fresh, well-formed tree for the next pass
+        total += cls.count
+    return ast.unparse(tree), total
 
 
 def one(rel):
